@@ -168,7 +168,26 @@ def check(chk):
     chk.judge(ok, 'C08.token', (MURMUR, 'murmur3', 0), 'murmur3 = C extension if importable, else _murmur3', 'implementation selection changed', nontrivial=False)
     md = meta.func('MD5Token.hash_fn')
     rets = [n for n in body_walk(md) if isinstance(n, ast.Return)]
-    ok = len(rets) == 1 and src(rets[0].value) == 'abs(varint_unpack(md5(key).digest()))'
+    from ..sem import resolve as _resolve
+    ok = False
+    if len(rets) == 1:
+        rv = _resolve(md, rets[0].value)
+        # abs(varint_unpack(md5(<key bytes>).digest())) with temporaries followed; <key bytes> is the key itself (re-assigned to its UTF-8 encoding when it is a str) or the same choice as an expression
+        def _peel(e, name):
+            return e.args[0] if isinstance(e, ast.Call) and src(e.func) == name and len(e.args) == 1 and not e.keywords else None
+        a1 = _peel(rv, 'abs')
+        a2 = _peel(_resolve(md, a1), 'varint_unpack') if a1 is not None else None
+        a2 = _resolve(md, a2) if a2 is not None else None
+        if isinstance(a2, ast.Call) and isinstance(a2.func, ast.Attribute) and a2.func.attr == 'digest' and not a2.args:
+            h_ = _resolve(md, a2.func.value)
+            karg = _peel(h_, 'md5')
+            if karg is not None:
+                karg = _resolve(md, karg)
+                if isinstance(karg, ast.Name) and karg.id == 'key':
+                    enc = [st for st in body_walk(md) if isinstance(st, ast.If) and src(st.test) == 'isinstance(key, str)' and len(st.body) == 1 and src(st.body[0]) == "key = key.encode('UTF-8')" and not st.orelse]
+                    ok = len(enc) == 1
+                elif isinstance(karg, ast.IfExp):
+                    ok = src(karg.test) == 'isinstance(key, str)' and src(karg.body) == "key.encode('UTF-8')" and src(karg.orelse) == 'key'
     imps = [n for n in ast.walk(meta.tree) if isinstance(n, ast.ImportFrom) and ((n.module == 'hashlib' and 'md5' in [a.name for a in n.names]) or (n.module == 'cassandra.marshal' and 'varint_unpack' in [a.name for a in n.names]))]
     chk.judge(ok and len(imps) == 2, 'C08.token', md, 'MD5Token: abs(signed big-endian integer of the MD5 digest)', 'MD5Token.hash_fn changed: %s' % (src(rets[0].value) if rets else None))
     tk = meta.func('Token.hash_fn')
